@@ -518,6 +518,18 @@ def formula_faults(rgce):
 def _w(v):
     return p16(v)
 
+def nested_rgce(limit=0xFFF0):
+    """every token byte taken as if it held a nested token stream behind a 16-bit (or 32-bit)
+    length, nested as deep as one formula can hold: a decoder that recurses on some token must
+    bound the depth (PtgMemFunc does; a new recursive arm may forget to)"""
+    for tk in range(1, 0x80):
+        for width, pad in ((2, 0), (2, 2), (2, 4), (2, 6), (4, 0)):   # operand bytes in front of the length (PtgMemArea has 4)
+            if True:
+                nr = b""
+                while len(nr) + 1 + pad + width <= limit:
+                    nr = bytes([tk]) + b"\0" * pad + (p16(len(nr)) if width == 2 else p32(len(nr))) + nr
+                yield "nest-%02x-p%d-w%d" % (tk, pad, width), nr
+
 # hand-made parsed formulas (BIFF8 token layouts): each one aims at one guard of xls parse_formula
 CRAFTED_RGCE_XLS = [
     b"\x1e\x01\x00" + b"\x22\x01" + _w(0xFFFF),          # PtgFuncVar, 1 argument, unknown function
@@ -578,6 +590,11 @@ def systematic_biff_formulas(stream, limit=3):
                     m = list(recs)
                     m[i] = (o, t, nb)
                     yield "biff-Formula#%d-rgce-crafted%d" % (i, k), biff_join(m)
+                for kind, nr in nested_rgce(limit=8000):
+                    nb = b[:20] + p16(len(nr)) + nr
+                    m = list(recs)
+                    m[i] = (o, t, nb)
+                    yield "biff-Formula#%d-%s" % (i, kind), biff_join(m)
         if t == 0x0018 and len(b) >= 15 and done[t] < limit:
             done[t] += 1
             cce = struct.unpack_from("<H", b, 4)[0]
@@ -779,6 +796,12 @@ def xlsb_formula_faults(part, limit=2):
             m = list(recs)
             m[i] = (o, t, nb, hl)
             yield "xlsb-fmla#%d-memfunc-depth%d" % (i, depth), xlsb_join(m)
+        if n == 1 or t == 0x0027:
+            for kind, nr in nested_rgce():
+                nb = b[:start] + p32(len(nr)) + nr + b[start + 4 + cce:]
+                m = list(recs)
+                m[i] = (o, t, nb, hl)
+                yield "xlsb-fmla#%d-%s" % (i, kind), xlsb_join(m)
 
 # ---------------------------------------------------------------- zip containers
 
